@@ -569,9 +569,17 @@ pub fn run_case(case: &Case) -> Outcome {
             if *mismatch {
                 o.label("invalid");
                 o.nontrivial = true;
-                return match guard(|| linear_fit(xs, &ys[..n - 1])) {
+                // one ordinate short, one ordinate too many, one abscissa short (chosen by the permutation seed)
+                let mut ys_long = ys.clone();
+                ys_long.push(ys[0]);
+                let (xa, ya): (&[f64], &[f64]) = match perm_seed % 3 {
+                    0 => (xs, &ys[..n - 1]),
+                    1 => (xs, &ys_long),
+                    _ => (&xs[..n - 1], &ys),
+                };
+                return match guard(|| linear_fit(xa, ya)) {
                     Ok(Err(_)) => o.pass(),
-                    Ok(Ok(_)) => o.fail("linear_fit with mismatched lengths returned Ok"),
+                    Ok(Ok(_)) => o.fail(format!("linear_fit with {} abscissae and {} ordinates returned Ok", xa.len(), ya.len())),
                     Err(c) => o.fail(format!("{c:?}")),
                 };
             }
@@ -869,7 +877,8 @@ fn strategy(_t: Tier) -> BoxedStrategy<Case> {
     // inversely so that the data are those of the unscaled problem
     let place = (prop_oneof![3 => Just((0.0, 0.0)), 2 => (prop_oneof![Just(10.0), Just(-50.0), Just(2010.0), gen::fl(-3000.0, 3000.0)], gen::fl(-1.5, 1.0)), 1 => (Just(0.0), gen::fl(-9.0, 6.0))], prop_oneof![4 => Just(0.0), 1 => gen::fl(-16.0, 6.0)])
         .prop_map(|((o, s), y)| (o, s, y));
-    let linear = (xs_strategy(3, 60), gen::fl(-3.0, 3.0), gen::fl(-3.0, 3.0), proptest::collection::vec(gen::fl(-1.0, 1.0), 60), prop_oneof![1 => Just(0.0), 1 => gen::logu(-4.0, -1.0)], any::<u64>(), prop_oneof![15 => Just(false), 1 => Just(true)], place)
+    // one design in six is a long series of 61-200 points
+    let linear = (prop_oneof![5 => xs_strategy(3, 60), 1 => xs_strategy(61, 200)], gen::fl(-3.0, 3.0), gen::fl(-3.0, 3.0), proptest::collection::vec(gen::fl(-1.0, 1.0), 60), prop_oneof![1 => Just(0.0), 1 => gen::logu(-4.0, -1.0)], any::<u64>(), prop_oneof![15 => Just(false), 1 => Just(true)], place)
         .prop_map(|(xs, slope, icpt, noise, noise_amp, perm_seed, mismatch, (offset, spread_exp, yscale_exp))| Case::Linear { xs, slope, icpt, noise, noise_amp, perm_seed, mismatch, offset, spread_exp, yscale_exp });
     let curve = (
         (0u8..5, 1usize..=4, xs_strategy(6, 60), prop_oneof![3 => Just(0.0), 1 => gen::fl(0.3, 1.5)]),
@@ -905,7 +914,7 @@ pub fn run(opts: &Opts) -> i32 {
     spec.cases = opts.tier.pick(30_000, 300_000);
     spec.essential = vec![("linear_fit", 0.1), ("curve_fit_jac", 0.2), ("curve_fit", 0.2), ("noisy", 0.2), ("invalid", 0.03), ("gaussian", 0.05), ("logistic", 0.05), ("exponential", 0.05), ("noisy-replicated-abscissae", 0.05), ("curve_fit_jac-complex-data", 0.04)];
     spec.max_discard_frac = 0.2;
-    spec.rule = "generated: linear_fit on 3-60 stratified abscissae in [-2,2] (a third of all designs snapped to a grid of width 0.25/0.5/1, i.e. with replicated abscissae), exactly linear or noisy (10^[-4,-1]), permuted order, mismatched lengths, two fifths of the designs moved to offset + 10^[-1.5,1] x (offsets 10, -50, 2010 or U(-3000,3000): data far from the origin relative to their spread; allowances scale with kappa = sum x^2 / sum (x-mean)^2), a seventh scaled about the origin by 10^[-9,6] with the slope scaled inversely (micro-units, large units), a fifth with all ordinates times 10^[-16,6]; curve_fit_jac / curve_fit on 6-60 abscissae with models linear in 1-4 parameters (polynomial and trigonometric bases, arbitrary starts in [-2,2]; a quarter of them with truth and start times 10^[0.3,1.5]: sums of squares far above 1 under the absolute tolerance, discarded when 2 tol is below 8 ulp of the initial sum) and non-linear models a e^{bx}+c, gaussian, logistic (starts within 20% of the truth), noise 0 or 10^[-4,-2], tolerance 10^[-12,-6], damping 10^[-2,1] (two ninths of the cases 10^[-4,-2], one ninth 10^[-10,-4] for the models linear in their parameters: practically Gauss-Newton), multiplier [1.1,5] (one case in ten: typed values - damping 2, 1, 3, 1.5, 5, 4, 10, 0.5, 0.1, 0.01 with multiplier 2, 1.5, 3, 1.25, 4, 5, 10, 4/3, 1.1, including the default pair (2,2) and the other pairs with damping (1 - 1/mult) = 1), h 10^[-4,-1]; designs with lambda_min(J^T J) < 1e-3, non-linear designs whose stopping-rule bound exceeds a tenth of the parameter scale, and non-linear designs whose least-squares solution lies further than a tenth of the parameter scale from the generating parameters, are discarded (counted); invalid: negative tolerance / h / damping, mismatched lengths; one case in thirteen is curve_fit_jac on complex data (model linear in 1-4 complex parameters, complex noise; a third of them noise-free with a start that differs from the truth by a common complex phase 1+i, 1-i or i times a real vector) against the complex normal equations; linear_fit on exactly linear complex data over complex abscissae (reproduction). Oracle: normal equations, exact-linear reproduction, permutation invariance; model-call budget (termination); distance to the reference least-squares solution (harness Gauss-Newton with analytic Jacobian) <= 10 sqrt(tol/lambda_min) sqrt(1 + d/(2 mu_min)) + 1e-9 (d = final damping from the transliterated loop, mu_min = smallest eigenvalue of the diagonally scaled Gauss-Newton matrix) (+ 40 h^2 |r| term for finite differences); a failing curve_fit outcome that coincides with the harness's bug-compatible transliteration of the Levenberg-Marquardt loop (Jacobian = sum) is the recorded finding K1; a failing curve_fit_jac outcome on a non-linear model that coincides with the transliterated loop, in which that loop accepted a step raising the sum of squares, and which a safeguarded Levenberg-Marquardt iteration from the same start and damping solves, is the recorded finding K3; one that coincides with the transliterated loop, in which that loop exited after its first main iteration with damping (1 - 1/mult) within 0.1 of 1, is the recorded finding K5. Non-trivial = non-linear model, noisy data or >= 3 parameters (linear_fit: noisy or >= 10 points). Distinct = distinct case JSON.".into();
+    spec.rule = "generated: linear_fit on 3-60 (one design in six: 61-200) stratified abscissae in [-2,2] (a third of all designs snapped to a grid of width 0.25/0.5/1, i.e. with replicated abscissae), exactly linear or noisy (10^[-4,-1]), permuted order, mismatched lengths (one ordinate short, one too many, one abscissa short), two fifths of the designs moved to offset + 10^[-1.5,1] x (offsets 10, -50, 2010 or U(-3000,3000): data far from the origin relative to their spread; allowances scale with kappa = sum x^2 / sum (x-mean)^2), a seventh scaled about the origin by 10^[-9,6] with the slope scaled inversely (micro-units, large units), a fifth with all ordinates times 10^[-16,6]; curve_fit_jac / curve_fit on 6-60 abscissae with models linear in 1-4 parameters (polynomial and trigonometric bases, arbitrary starts in [-2,2]; a quarter of them with truth and start times 10^[0.3,1.5]: sums of squares far above 1 under the absolute tolerance, discarded when 2 tol is below 8 ulp of the initial sum) and non-linear models a e^{bx}+c, gaussian, logistic (starts within 20% of the truth), noise 0 or 10^[-4,-2], tolerance 10^[-12,-6], damping 10^[-2,1] (two ninths of the cases 10^[-4,-2], one ninth 10^[-10,-4] for the models linear in their parameters: practically Gauss-Newton), multiplier [1.1,5] (one case in ten: typed values - damping 2, 1, 3, 1.5, 5, 4, 10, 0.5, 0.1, 0.01 with multiplier 2, 1.5, 3, 1.25, 4, 5, 10, 4/3, 1.1, including the default pair (2,2) and the other pairs with damping (1 - 1/mult) = 1), h 10^[-4,-1]; designs with lambda_min(J^T J) < 1e-3, non-linear designs whose stopping-rule bound exceeds a tenth of the parameter scale, and non-linear designs whose least-squares solution lies further than a tenth of the parameter scale from the generating parameters, are discarded (counted); invalid: negative tolerance / h / damping, mismatched lengths; one case in thirteen is curve_fit_jac on complex data (model linear in 1-4 complex parameters, complex noise; a third of them noise-free with a start that differs from the truth by a common complex phase 1+i, 1-i or i times a real vector) against the complex normal equations; linear_fit on exactly linear complex data over complex abscissae (reproduction). Oracle: normal equations, exact-linear reproduction, permutation invariance; model-call budget (termination); distance to the reference least-squares solution (harness Gauss-Newton with analytic Jacobian) <= 10 sqrt(tol/lambda_min) sqrt(1 + d/(2 mu_min)) + 1e-9 (d = final damping from the transliterated loop, mu_min = smallest eigenvalue of the diagonally scaled Gauss-Newton matrix) (+ 40 h^2 |r| term for finite differences); a failing curve_fit outcome that coincides with the harness's bug-compatible transliteration of the Levenberg-Marquardt loop (Jacobian = sum) is the recorded finding K1; a failing curve_fit_jac outcome on a non-linear model that coincides with the transliterated loop, in which that loop accepted a step raising the sum of squares, and which a safeguarded Levenberg-Marquardt iteration from the same start and damping solves, is the recorded finding K3; one that coincides with the transliterated loop, in which that loop exited after its first main iteration with damping (1 - 1/mult) within 0.1 of 1, is the recorded finding K5. Non-trivial = non-linear model, noisy data or >= 3 parameters (linear_fit: noisy or >= 10 points). Distinct = distinct case JSON.".into();
     spec.assumptions = vec!["reference least-squares solution by Gauss-Newton from the generating parameters".into(), "bug-compatible LM transliteration tracks the implementation bit-for-bit (same nalgebra calls)".into()];
     spec.max_shrink_iters = 400;
     run_spec(spec, opts)
